@@ -50,9 +50,11 @@ def fam_class():
                 return self.systime if t is None else t
 
             def state_transition(self, state, input, t=None):
-                if getattr(self, "fail_next", "") == "f":       # a user callback that raises once (error-path atomicity)
-                    self.fail_next = ""
-                    raise RuntimeError("user state_transition failed")
+                if getattr(self, "fail_next", "") == "f":       # a user callback that raises once (error-path atomicity),
+                    self.fail_skip = getattr(self, "fail_skip", 0) - 1      # at its `fail_skip`-th evaluation from now
+                    if self.fail_skip < 0:
+                        self.fail_next = ""
+                        raise RuntimeError("user state_transition failed")
                 z = state @ self.p_A0.mT + input @ self.p_B0.mT + self.p_c1 + self._tt(t) * self.p_tf
                 if self.nonlin_f:
                     z = z + self.p_af * torch.sin(state @ self.p_Wf.mT + input @ self.p_Vf.mT + self.p_phf)
@@ -60,8 +62,10 @@ def fam_class():
 
             def observation(self, state, input, t=None):
                 if getattr(self, "fail_next", "") == "g":
-                    self.fail_next = ""
-                    raise RuntimeError("user observation failed")
+                    self.fail_skip = getattr(self, "fail_skip", 0) - 1
+                    if self.fail_skip < 0:
+                        self.fail_next = ""
+                        raise RuntimeError("user observation failed")
                 z = state @ self.p_C0.mT + input @ self.p_D0.mT + self.p_c2 + self._tt(t) * self.p_tg
                 if self.nonlin_g:
                     z = z + self.p_ag * torch.sin(state @ self.p_Wg.mT + input @ self.p_Vg.mT + self.p_phg)
